@@ -80,8 +80,37 @@ ProgClauses ==
               \cup When(\E i \in 1..n : i <= Len(E.dec) /\ E.dec[i].off # rr.offs[i], "decode_cursor")
          ELSE When(E.derr # Insufficient, "decode_roundtrip"))
 
-(* ---------------------------------------------------------------- part 2: bodies (see below) *)
-BodyClauses == {}
+(* ---------------------------------------------------------------- part 2: bodies *)
+\* one push field of the writing pass: <<kind, start, end, width, field bytes..., independent CRC bytes...>>
+FieldOK(row) ==
+  LET kind == row[1]
+      start == row[2]
+      end == row[3]
+      w == row[4] IN
+  CASE kind = 1 -> w = 4 /\ Len(row) = 8 /\ SubSeq(row, 5, 8) = BE(I(end - start - 4), 4)           \* INT32 length of what follows
+    [] kind = 2 -> Len(row) = 4 + w /\ SubSeq(row, 5, 4 + w) = Var(I(end - start - w))            \* zig-zag varint length, own size excluded
+    [] kind \in {3, 4} -> w = 4 /\ Len(row) = 12 /\ SubSeq(row, 5, 8) = SubSeq(row, 9, 12)        \* CRC of the bytes between field and pop
+    [] OTHER -> FALSE
+
+BodyClauses ==
+  IF E.eerr # "" THEN V("body_passes_agree")          \* the sizing pass accepted the value, the writing pass failed or panicked
+  ELSE
+   LET dok == E.derr = ""
+       rok == dok /\ E.rerr = "" IN
+   \* the two passes make the same calls (kind, width), reach the same total and the same extent for every push
+   When(E.preplen # E.reallen \/ E.reallen # E.buflen \/ E.prepext # E.realext \/ E.tprepkw # E.trealkw, "body_passes_agree")
+   \* length prefixes, varint lengths and checksums are the prescribed function of the bytes they cover
+   \cup When(\E i \in 1..Len(E.fields) : ~FieldOK(E.fields[i]), "body_push_fields")
+   \* decode succeeds and consumes exactly the buffer
+   \cup When(~dok \/ E.dend # E.buflen, "body_decode_consumes")
+   \* every primitive cell written is read back as a cell of the same kind, width and bytes (multisets)
+   \cup When(dok /\ E.tdec # E.treal, "body_decode_tape")
+   \* the decoded value re-encodes to the same length, the same cells, and (no Go map iterated) the same bytes
+   \cup When(dok /\ (E.rerr # "" \/ E.relen # E.buflen), "body_reencode_length")
+   \cup When(rok /\ E.treenc # E.treal, "body_reencode_tape")
+   \cup When(rok /\ ~E.hasmap /\ E.redigest # E.digest, "body_reencode_bytes")
+   \* ... and decodes to the same value again
+   \cup When(rok /\ (E.d2err # "" \/ E.tdec2 # E.tdec \/ E.d2end # E.relen), "body_second_decode")
 
 Init == l = 1 /\ viol = {} /\ nprog = 0 /\ nbody = 0
 
